@@ -36,7 +36,8 @@ ENUM_RULE = (
     "variants; for every catalogue stream of at most ENUM_MAX[tier] octets EVERY single cut and EVERY pair of cuts "
     "(and byte-at-a-time delivery) is executed through SimTransport and must give the outcome of the one-piece "
     "delivery, which in turn must be the reference decoder's.  Exhaustive over cut sets of size <= 2 of the catalogue, "
-    "nothing else."
+    "nothing else.  Run first, outside the catalogue: three directed streams for the unlimited reader (max_msg_size=0) "
+    "with one frame of 1100 / 2600 octets delivered one and two octets per read."
 )
 TECHNIQUE = ("deterministic simulation: real WebSocketReader behind an in-memory transport with enumerated and seeded "
              "segmentation, seeded consumer pauses, RFC 6455/7692 reference decoder as oracle, object-graph memory probe")
@@ -359,6 +360,7 @@ def gen(rng, tier, index):
     fam = rng.random()
     label = "valid"
     forced = None
+    one_frame = None
     if fam < 0.62:
         small = [0, 0, 1, 2, 3, 5, 8, 13, 20, 40]
         if mms and mms <= 4096:
@@ -389,15 +391,18 @@ def gen(rng, tier, index):
     elif fam < 0.90:
         label, spec = gen_random_bytes(rng, cfg)
     else:
-        label, spec, forced = gen_tiny_fragments(rng, cfg, tier)
+        label, spec, forced, one_frame = gen_tiny_fragments(rng, cfg, tier)
     n = spec_len(spec)
     nd = rng.choice([1, 1, 2, 4])
     delays = [rng.choice([0, 0, 0, 1, 2, 5, 20]) for _ in range(nd)]
     segs = gen_segs(rng, n, tier)
     if forced:
         segs = forced + segs[:1]
-    return {"cfg": cfg, "stream": spec, "segs": segs, "delays": delays,
-            "end": rng.choice(["keep", "keep", "close"]), "label": label, "latency": rng.choice([0, 0, 3])}
+    scn = {"cfg": cfg, "stream": spec, "segs": segs, "delays": delays,
+           "end": rng.choice(["keep", "keep", "close"]), "label": label, "latency": rng.choice([0, 0, 3])}
+    if one_frame is not None:
+        scn["one_frame"] = one_frame  # parameters of the stream, kept so that shrink() can rebuild a smaller one
+    return scn
 
 
 def gen_size_boundary(rng, cfg, tier):
@@ -524,16 +529,37 @@ def gen_tiny_fragments(rng, cfg, tier):
                 out += R.build_frame(R.OP_PING, b"")
         out += R.build_frame(R.OP_CONT, b"e", fin=True)
         out += R.build_frame(R.OP_PING, b"after")
-        return "many_frames", [lit(bytes(out))], None
+        return "many_frames", [lit(bytes(out))], None, None
     # one frame of n octets below the limit, delivered in more reads than the fragment cap
     m = rng.choice([2048, 4096, 4096, 8192, DEFAULT_MAX])
     cfg["max_msg_size"] = m
     n = rng.choice([1000, 1030, 1100, 1500, 2000, 3000, min(m, 6000) - 1])
-    spec = [lit(R.build_frame(R.OP_BINARY, b"", declared_len=n, mask=b"\0\0\0\0" if rng.random() < 0.3 else None)),
-            ["r", 0x78, n], lit(R.build_frame(R.OP_PING, b"after"))]
+    of = {"n": n, "masked": rng.random() < 0.3, "prefix": False, "cont": False}
+    of["prefix"] = rng.random() < 0.3
+    every = rng.choice([1, 1, 2])
+    # the unlimited reader (max_msg_size=0, "no cap" for sizes and for the number of reads a frame may take): the same
+    # stream must come out whatever the number of reads; drawn last so the other draws of this family stay as they were
     if rng.random() < 0.3:
+        cfg["max_msg_size"] = 0
+        if rng.random() < 0.5:
+            of["n"] = rng.choice([1100, 2600, 5000, 9000])
+        of["cont"] = rng.random() < 0.3
+    return "one_frame_many_reads", one_frame_spec(of), [["every", every]], of
+
+
+def one_frame_spec(of):
+    """one binary frame of of["n"] octets (optionally masked with the zero key, optionally preceded by a two-fragment
+    text message), then a ping"""
+    n = of["n"]
+    spec = [lit(R.build_frame(R.OP_CONT if of.get("cont") else R.OP_BINARY, b"", declared_len=n,
+                              mask=b"\0\0\0\0" if of["masked"] else None)),
+            ["r", 0x78, n], lit(R.build_frame(R.OP_PING, b"after"))]
+    if of.get("cont"):
+        # the long frame is the last fragment of a text message
+        spec.insert(0, lit(R.build_frame(R.OP_TEXT, b"st", fin=False) + R.build_frame(R.OP_PING, b"mid")))
+    if of["prefix"]:
         spec.insert(0, lit(R.build_frame(R.OP_TEXT, b"frag", fin=False) + R.build_frame(R.OP_CONT, b"ment")))
-    return "one_frame_many_reads", spec, [["every", rng.choice([1, 1, 2])]]
+    return spec
 
 
 # ---------------------------------------------------------------------------
@@ -881,7 +907,10 @@ def run(scn, ch, log=False):
                 viol("progress", f"run_capped_{o['capped']}", f"{head}; delivery {seg_desc}: run hit the {o['capped']} cap")
                 return
             if o["stalled"]:
-                viol("stall", "paused_incomplete_frame_never_resumed",
+                # max_msg_size=0 is the unlimited configuration: no size bound and hence no bound on the number of reads a
+                # frame may take is in force, so a reader that stops reading there is a class of its own (not the
+                # consequence of the fragment-count cap of a limited reader)
+                viol("stall", "paused_incomplete_frame_never_resumed" + ("" if cfg["max_msg_size"] else ":unlimited_reader"),
                      f"{head}; delivery {seg_desc}: consumer blocked in queue.read() on an empty queue while the "
                      f"transport is paused with {o['undelivered']} of {n} octets undelivered; "
                      f"fragments buffered={o['frag_peak']} deliveries={o['deliveries']} got={short(o['msgs'])}")
@@ -1038,6 +1067,24 @@ def shrink(scn):
         c = dict(scn)
         c["cfg"] = dict(scn["cfg"], qlimit=65536)
         yield c
+    of = scn.get("one_frame")
+    if of:
+        # one frame delivered in many reads: no prefix message, no mask, shorter frame (the stream is rebuilt)
+        cands = []
+        if of["prefix"]:
+            cands.append(dict(of, prefix=False))
+        if of["masked"]:
+            cands.append(dict(of, masked=False))
+        if of.get("cont"):
+            cands.append(dict(of, cont=False))
+        for n2 in (1030, of["n"] // 2, of["n"] * 3 // 4, of["n"] - 100):
+            if 1 <= n2 < of["n"]:
+                cands.append(dict(of, n=n2))
+        for of2 in cands:
+            c = dict(scn)
+            c["one_frame"] = of2
+            c["stream"] = one_frame_spec(of2)
+            yield c
     # drop whole frames from either end (only for literal streams the reference can split)
     spec = scn["stream"]
     if len(spec) == 1 and spec[0][0] == "l" and len(spec[0][1]) <= 20000:
@@ -1134,7 +1181,21 @@ def catalogue(tier):
     return res
 
 
+def read_count_cases():
+    """The unlimited reader (max_msg_size=0): one frame longer than any read-count constant of the implementation,
+    delivered one and two octets per read - as a single frame, masked, after a fragmented message, and as the last
+    fragment of a message.  (With a limit configured the same deliveries run into the known finding C12-F1, so the
+    limited reader is left to the seeded part.)"""
+    cfg = {"compress": False, "decode_text": True, "max_msg_size": 0, "qlimit": 65536}
+    for of, compress in (({"n": 1100, "masked": False, "prefix": False, "cont": False}, False),
+                         ({"n": 2600, "masked": True, "prefix": True, "cont": False}, True),
+                         ({"n": 2600, "masked": False, "prefix": False, "cont": True}, False)):
+        yield {"cfg": dict(cfg, compress=compress), "stream": one_frame_spec(of), "segs": [["every", 1], ["every", 2]],
+               "delays": [0], "end": "keep", "label": "one_frame_many_reads", "latency": 0, "enum": True, "one_frame": of}
+
+
 def enumerate_cases(tier, seed):
+    yield from read_count_cases()
     per = 160  # segmentations per scenario
     for label, cfg, b in catalogue(tier):
         n = len(b)
